@@ -1160,11 +1160,64 @@ func genCurveParams(repo string, cs curveSpec, out *strings.Builder, hashes map[
 		for _, st := range fd.Body.List {
 			body = append(body, src(fset, st))
 		}
-		switch strings.Join(body, "; ") {
-		case "xOut.Set(xIn); yOut.Set(yIn); zOut.Set(zIn)":
+		joined := strings.Join(body, "; ")
+		switch {
+		case joined == "xOut.Set(xIn); yOut.Set(yIn); zOut.Set(zIn)":
 			fmt.Fprintf(out, "Definition %sclear_cofactor : cofactor_kind := Cofactor_identity.\n", P)
+		case joined == "var out Point; out.X.Set(xIn); out.Y.Set(yIn); out.T.Set(tIn); out.Z.Set(zIn); out.Double(&out); out.Double(&out); out.Double(&out); xOut.Set(&out.X); yOut.Set(&out.Y); tOut.Set(&out.T); zOut.Set(&out.Z)":
+			fmt.Fprintf(out, "Definition %sclear_cofactor : cofactor_kind := Cofactor_double3.\n", P)
+		case strings.HasPrefix(joined, "var in G1Point; in.X.Set(xIn); in.Y.Set(yIn); in.Z.Set(zIn); var out G1Point; aimpl.ScalarMulLowLevel(&out, &in, binary.LittleEndian.AppendUint64(nil, ") &&
+			strings.HasSuffix(joined, ")); xOut.Set(&out.X); yOut.Set(&out.Y); zOut.Set(&out.Z)"):
+			// the scalar is a constant expression of the package (X+1): evaluate it as the compiler does
+			var call *ast.CallExpr
+			ast.Inspect(fd, func(n ast.Node) bool {
+				if c, ok := n.(*ast.CallExpr); ok && isSel(c.Fun, "binary", "LittleEndian", "AppendUint64") && len(c.Args) == 2 {
+					call = c
+				}
+				return true
+			})
+			if call == nil {
+				return fmt.Errorf("%s: ClearCofactor: scalar not found", cs.name)
+			}
+			entries, err := os.ReadDir(filepath.Join(repo, cs.dir))
+			if err != nil {
+				return err
+			}
+			var all []*ast.File
+			for _, e := range entries {
+				if strings.HasSuffix(e.Name(), ".go") && !strings.HasSuffix(e.Name(), "_test.go") && !strings.Contains(e.Name(), "fiat") && !strings.HasSuffix(e.Name(), ".gen.go") {
+					f, err := parser.ParseFile(fset, filepath.Join(repo, cs.dir, e.Name()), nil, 0)
+					if err != nil {
+						return err
+					}
+					all = append(all, f)
+				}
+			}
+			// re-find the scalar expression inside the freshly parsed files
+			var expr ast.Expr
+			for _, f := range all {
+				if m := findMethod(f, cs.curveP, "ClearCofactor"); m != nil {
+					ast.Inspect(m, func(n ast.Node) bool {
+						if c, ok := n.(*ast.CallExpr); ok && isSel(c.Fun, "binary", "LittleEndian", "AppendUint64") && len(c.Args) == 2 {
+							expr = c.Args[1]
+						}
+						return true
+					})
+				}
+			}
+			_, info := typeCheckLoose(fset, all)
+			tv, ok := info.Types[expr]
+			if expr == nil || !ok || tv.Value == nil {
+				return fmt.Errorf("%s: ClearCofactor: scalar `%s` is not a constant the translator can evaluate", cs.name, src(fset, call.Args[1]))
+			}
+			v, ok2 := new(big.Int).SetString(tv.Value.ExactString(), 10)
+			if !ok2 {
+				return fmt.Errorf("%s: ClearCofactor: scalar value %s", cs.name, tv.Value.ExactString())
+			}
+			fmt.Fprintf(out, "Definition %sclear_cofactor : cofactor_kind := Cofactor_scalar.\n", P)
+			fmt.Fprintf(out, "Definition %scofactor_scalar : Z := %s.  (* %s *)\n", P, bigZ(v), src(fset, call.Args[1]))
 		default:
-			fmt.Fprintf(out, "Definition %sclear_cofactor : cofactor_kind := Cofactor_other.  (* not the identity: %d statements *)\n", P, len(body))
+			fmt.Fprintf(out, "Definition %sclear_cofactor : cofactor_kind := Cofactor_other.  (* unrecognised: %d statements *)\n", P, len(body))
 		}
 	}
 	out.WriteString("\n")
@@ -1173,19 +1226,19 @@ func genCurveParams(repo string, cs curveSpec, out *strings.Builder, hashes map[
 
 // ---- the Hash wiring of weierstrass.go ----------------------------------------------------------
 
-func checkHashWiring(repo string, hashes map[string]string) (string, error) {
+func checkHashWiring(repo string, hashes map[string]string, file, typ, coq string, fields []string) (string, error) {
 	fset := token.NewFileSet()
-	f, err := parser.ParseFile(fset, filepath.Join(repo, "pkg/base/curves/impl/points/weierstrass.go"), nil, 0)
+	f, err := parser.ParseFile(fset, filepath.Join(repo, file), nil, 0)
 	if err != nil {
 		return "", err
 	}
-	fd := findMethod(f, "ShortWeierstrassPointImpl", "Hash")
+	fd := findMethod(f, typ, "Hash")
 	if fd == nil {
-		return "", fmt.Errorf("ShortWeierstrassPointImpl.Hash not found")
+		return "", fmt.Errorf("%s.Hash not found", typ)
 	}
-	hashes["ShortWeierstrassPointImpl.Hash"] = hashText(src(fset, fd))
+	hashes[typ+".Hash"] = hashText(src(fset, fd))
 	if got := src(fset, fd.Type); got != "func(dst string, message []byte)" {
-		return "", fmt.Errorf("ShortWeierstrassPointImpl.Hash: unexpected parameters %s", got)
+		return "", fmt.Errorf("%s.Hash: unexpected parameters %s", typ, got)
 	}
 	// statements other than declarations, in order
 	var seq []string
@@ -1195,6 +1248,11 @@ func checkHashWiring(repo string, hashes map[string]string) (string, error) {
 		}
 		seq = append(seq, src(fset, st))
 	}
+	var pf, qf []string
+	for _, fl := range fields {
+		pf = append(pf, "&p."+fl)
+		qf = append(qf, "&q."+fl)
+	}
 	want := []string{
 		"h2c.HashToField[FP](u[:], hasherParams, dst, message)",
 		"mapper.Map(&xn0, &xd0, &yn0, &yd0, &u[0])",
@@ -1202,14 +1260,14 @@ func checkHashWiring(repo string, hashes map[string]string) (string, error) {
 		"q0.setFractions(&xn0, &xd0, &yn0, &yd0)",
 		"q1.setFractions(&xn1, &xd1, &yn1, &yd1)",
 		"q.Add(&q0, &q1)",
-		"curveParams.ClearCofactor(&p.X, &p.Y, &p.Z, &q.X, &q.Y, &q.Z)",
+		"curveParams.ClearCofactor(" + strings.Join(append(pf, qf...), ", ") + ")",
 	}
 	if len(seq) != len(want) {
-		return "", fmt.Errorf("ShortWeierstrassPointImpl.Hash: %d statements, expected %d", len(seq), len(want))
+		return "", fmt.Errorf("%s.Hash: %d statements, expected %d", typ, len(seq), len(want))
 	}
 	for i := range want {
 		if seq[i] != want[i] {
-			return "", fmt.Errorf("ShortWeierstrassPointImpl.Hash: unrecognised statement `%s` (expected `%s`)", seq[i], want[i])
+			return "", fmt.Errorf("%s.Hash: unrecognised statement `%s` (expected `%s`)", typ, seq[i], want[i])
 		}
 	}
 	count := ""
@@ -1222,11 +1280,11 @@ func checkHashWiring(repo string, hashes map[string]string) (string, error) {
 		return true
 	})
 	if count == "" {
-		return "", fmt.Errorf("ShortWeierstrassPointImpl.Hash: declaration of u not found")
+		return "", fmt.Errorf("%s.Hash: declaration of u not found", typ)
 	}
-	return "(* ShortWeierstrassPointImpl.Hash: u = hash_to_field(count, dst, message); Q_i = setFractions(Map(u_i));\n" +
+	return "(* " + typ + ".Hash: u = hash_to_field(count, dst, message); Q_i = setFractions(Map(u_i));\n" +
 		"   result = ClearCofactor(Add(Q_0, Q_1)) *)\n" +
-		"Definition W_Hash {U Q : Type} (hash_to_field : N -> bytes -> bytes -> list U) (map_to_curve : U -> Q)\n" +
+		"Definition " + coq + " {U Q : Type} (hash_to_field : N -> bytes -> bytes -> list U) (map_to_curve : U -> Q)\n" +
 		"    (add : Q -> Q -> Q) (clear_cofactor : Q -> Q) (dflt : U) (dst message : bytes) : Q :=\n" +
 		"  let u := hash_to_field " + count + "%N dst message in\n" +
 		"  let q0 := map_to_curve (nth 0 u dflt) in\n" +
@@ -1253,7 +1311,8 @@ func genMappers(repo string) (string, map[string]string, error) {
 		"  | top :: rest => fold_left (fun acc c => fadd K (fmul K acc at_) c) rest top\n  end.\n\n")
 	out.WriteString("Inductive mapper_kind := sswu_ZeroPointMapper | sswu_NonZeroPointMapper | elligator2_Edwards25519PointMapper.\n")
 	out.WriteString("Inductive expander_kind := XMD_SHA256 | XMD_SHA512.\n")
-	out.WriteString("Inductive cofactor_kind := Cofactor_identity | Cofactor_other.\n\n")
+	out.WriteString("(* ClearCofactor: the identity | three doublings | multiplication by the scalar <curve>_cofactor_scalar | unrecognised *)\n")
+	out.WriteString("Inductive cofactor_kind := Cofactor_identity | Cofactor_double3 | Cofactor_scalar | Cofactor_other.\n\n")
 
 	sdir := filepath.Join(repo, "pkg/base/curves/impl/rfc9380/mappers/sswu")
 	fset := token.NewFileSet()
@@ -1408,7 +1467,12 @@ func genMappers(repo string) (string, map[string]string, error) {
 	out.WriteString("End Elligator2.\n\n")
 
 	// Hash wiring
-	w, err := checkHashWiring(repo, hashes)
+	w, err := checkHashWiring(repo, hashes, "pkg/base/curves/impl/points/weierstrass.go", "ShortWeierstrassPointImpl", "W_Hash", []string{"X", "Y", "Z"})
+	if err != nil {
+		return "", nil, err
+	}
+	out.WriteString(w)
+	w, err = checkHashWiring(repo, hashes, "pkg/base/curves/impl/points/edwards.go", "TwistedEdwardsPointImpl", "E_Hash", []string{"X", "Y", "T", "Z"})
 	if err != nil {
 		return "", nil, err
 	}
